@@ -28,18 +28,18 @@ type statCase struct {
 }
 
 func statCases(r *eng.Rand, thorough bool) (out []eng.Case) {
-	samples := 1 << 16
+	samples := 1 << 18
 	if thorough {
-		samples = 1 << 19
+		samples = 1 << 21
 	}
 	add := func(i int, rc ringCfg, dc distCfg) {
 		sc := statCase{Ring: rc, Dist: dc, Samples: samples}
 		id := fmt.Sprintf("stat/%s/%s/m%v/logN%d/%d", dc.Kind, dc.Tag, dc.Mont, rc.LogN, i)
 		out = append(out, eng.Case{ID: id, Sig: "C17|" + dc.name(), Desc: sc, Run: func(c *eng.Ctx) { runStat(c, sc) }})
 	}
-	reps := 1
+	reps := 3
 	if thorough {
-		reps = 3
+		reps = 10
 	}
 	for rep := 0; rep < reps; rep++ {
 		// uniform: chains mixing the smallest admissible primes with large ones
@@ -379,6 +379,9 @@ func statGauss(c *eng.Ctx, sc statCase, pols []ring.Poly, where func() string) {
 		}
 		sxy += (vals[i] - mean) * (vals[i+1] - mean)
 		m++
+	}
+	if emp == 0 || m == 0 {
+		return
 	}
 	rho := sxy / m / (emp * emp)
 	c.Check(math.Abs(rho) <= 6/math.Sqrt(m), "C17|GaussianSampler|adjacent-coefficients-correlated", func() string {
